@@ -279,7 +279,8 @@ PROPS.update({
               "theorems c11_* incl. c11_asleep_runs_are_silent (all runs); monitor Spec.c11 on implementation traces"),
     "C13": gw("C13",
               "Lean theorems c13_end (end emits DISCONNECT iff active/awake, the end marker and the broker close, stops all timers; once), c13_causes (shutdown, broker "
-              "EOF/garbage, undecodable or illegal datagram cancel the session), c13_step_ends (the same step emits the end), c13_plain_disconnect; bounded real "
+              "EOF/garbage, undecodable or illegal datagram cancel the session), c13_step_ends (the same step emits the end), c13_plain_disconnect; ALL RUNS: c13_step_reaches_ended + "
+              "c13_ended_runs_are_silent (after its end a session emits nothing for ever, whatever arrives); bounded real "
               "time and goroutine exit are measured on the real handler (virtual clock, goroutine census) by the monitor Spec.c13",
               "theorems c13_*; monitor Spec.c13 + goroutine-leak census on implementation traces",
               assumptions=["goroutine exit and the poll-interval bound are runtime facts: measured, not proved"]),
